@@ -7,6 +7,7 @@ package http2
 // and read back field by field.
 
 import (
+	"bufio"
 	"bytes"
 	"encoding/binary"
 	"encoding/json"
@@ -51,6 +52,10 @@ func vfPadWrap(pad string, body []byte) ([]byte, byte) {
 		return append(append([]byte{3}, body...), 0, 0, 0), 0x8
 	case "toobig":
 		return []byte{200, 1, 2}, 0x8
+	case "edge":
+		return append([]byte{byte(len(body) + 1)}, body...), 0x8
+	case "full":
+		return append([]byte{byte(len(body))}, body...), 0x8
 	case "nopayload":
 		return nil, 0x8
 	}
@@ -107,6 +112,12 @@ func (f vfAFrame) bytes() []byte {
 				flags |= 0x8
 			case "toobig":
 				p = append([]byte{200}, inner...)
+				flags |= 0x8
+			case "edge": // one more than the fragment that is left once the priority fields are taken
+				p = append([]byte{byte(len(frag) + 1)}, inner...)
+				flags |= 0x8
+			case "full":
+				p = append([]byte{byte(len(frag))}, inner...)
 				flags |= 0x8
 			default:
 				p = inner
@@ -165,6 +176,12 @@ func (f vfAFrame) bytes() []byte {
 				flags |= 0x8
 			case "toobig":
 				p = append([]byte{200}, inner...)
+				flags |= 0x8
+			case "edge": // one more than the fragment that is left once the promised stream id is taken
+				p = append([]byte{5}, inner...)
+				flags |= 0x8
+			case "full":
+				p = append([]byte{4}, inner...)
 				flags |= 0x8
 			default:
 				p = inner
@@ -236,6 +253,16 @@ func TestVFC19Read(t *testing.T) {
 	maxRead := uint32(vfEnvInt("VF_MAXREAD", 16384))
 	rng := rand.New(rand.NewSource(int64(vfEnvInt("VERIF_SEED", 1))))
 	divergent, truncs, mutated := 0, 0, 0
+	var dumpW *bufio.Writer
+	if path := os.Getenv("VF_DUMPBYTES"); path != "" { // the serialized cases, for the live-server abuse driver of C10
+		df, err := os.Create(path)
+		if err != nil {
+			t.Fatal(err)
+		}
+		defer df.Close()
+		dumpW = bufio.NewWriter(df)
+		defer dumpW.Flush()
+	}
 	for _, e := range g.Edges {
 		var from, to int
 		json.Unmarshal(e[0], &from)
@@ -269,6 +296,9 @@ func TestVFC19Read(t *testing.T) {
 			}
 			fr, err := framer.ReadFrame()
 			return vfClassify(fr, err), fr, nil
+		}
+		if dumpW != nil && len(stream) <= 20000 {
+			fmt.Fprintf(dumpW, "{\"t\":%q,\"k\":%q,\"cont\":%d,\"hex\":\"%x\"}\n", f.T, f.T+"/"+f.Pad+"/"+f.Prio+"/"+fmt.Sprint(f.Short), cont, stream)
 		}
 		got, fr, pan := read(stream)
 		res.Steps++
